@@ -10,7 +10,7 @@ from . import c01
 MEMFUNCS = {"memcpy", "memset", "memmove", "memcmp"}
 # what a C compiler may emit by itself: libgcc/compiler-rt integer helpers and the stack protector.
 # Loader/libc services (__tls_get_addr, __cxa_*, _ITM_*, ...) are NOT in this set: they need a hosted runtime.
-COMPILER_RT = re.compile(r"^(__stack_chk_fail|__stack_chk_guard|__(u?div|u?mod|mul|ashl|ashr|lshr|cmp|ucmp|neg|ffs|clz|ctz|popcount|parity|bswap)[sdt]i[234]?"
+COMPILER_RT = re.compile(r"^(__stack_chk_fail|__stack_chk_guard|__aeabi_(u?l?div(mod)?|u?idiv(mod)?|lmul|ll?s[lr]|lasr|l?cmp|ul?cmp|mem(cpy|move|set|clr)[48]?)|__(u?div|u?mod|mul|ashl|ashr|lshr|cmp|ucmp|neg|ffs|clz|ctz|popcount|parity|bswap)[sdt]i[234]?"
                          r"|__udivmoddi4|__divmoddi4|_GLOBAL_OFFSET_TABLE_)$")
 
 
@@ -35,7 +35,9 @@ def run(ctx):
     rep.assumptions = ["the core is built without LLTD_VERIF_HOOKS here: the property is about the unhooked core",
                        "the lexical clause (no OS macro/header) is the repository's own lint script, run from the working tree and "
                        "reported separately: that part is not runtime monitoring (auxiliary)",
-                       "nm -u over the relocatably linked core objects is an auxiliary static cross-check of the loader's bindings"]
+                       "nm -u over the relocatably linked core objects is an auxiliary static cross-check of the loader's bindings",
+                       "the cross-target matrix (i386, ARMv6-M, ARMv5TE, RV32IMC, MIPS) is compile-only: undefined symbols of the "
+                       "freestanding objects are inspected, nothing is executed for those targets"]
     allowed = port_functions()
     rep.extra["port_functions_declared"] = len(allowed)
     d = ctx.work.sub("matrix")
@@ -254,6 +256,44 @@ def run(ctx):
                 if inside:
                     rep.violation("C20:system-call-from-inside-the-core:%s" % inside[0].split("(")[0].split(" ")[-1],
                                   "configuration %s: system calls between the BEGIN and END markers:\n%s" % (name, "\n".join(inside[:10])))
+    # auxiliary static cross-check on targets that cannot run here: the core compiled freestanding for CPUs without native
+    # atomics / 64-bit division (bare-metal class ports) may reference the port API, the memory primitives and the
+    # integer helpers of the compiler runtime - nothing that needs libatomic, libc or an operating system
+    cross = [("gcc-i386", ["gcc", "-m32", "-march=i386", "-isystem", gcc_inc]),
+             ("clang-armv6m", ["clang", "--target=armv6m-none-eabi", "-isystem", clang_inc]),
+             ("clang-armv5te", ["clang", "--target=armv5te-none-eabi", "-isystem", clang_inc]),
+             ("clang-rv32imc", ["clang", "--target=riscv32", "-march=rv32imc", "-isystem", clang_inc]),
+             ("clang-mipsel", ["clang", "--target=mipsel-none-elf", "-isystem", clang_inc])]
+    nm_tool = "llvm-nm-14" if sh(["which", "llvm-nm-14"]).returncode == 0 else "nm"
+
+    def cross_cfg(item):
+        (tname, cmd), opt = item
+        objs = []
+        for c in core:
+            o = os.path.join(d, "x-%s%s-%s.o" % (tname, opt, os.path.basename(c)))
+            r = sh(cmd + [opt, "-ffreestanding", "-nostdinc", "-w", "-c", inc, "-o", o, c])
+            if r.returncode != 0:
+                return tname, opt, None, r.stdout[-400:]
+            objs.append(o)
+        und, dfn = set(), set()
+        for o in objs:
+            und |= set(x.split()[-1] for x in sh([nm_tool, "-u", o]).stdout.split("\n") if x.strip())
+            dfn |= set(x.split()[-1] for x in sh([nm_tool, "--defined-only", o]).stdout.split("\n") if x.strip())
+        return tname, opt, und - dfn, None
+
+    with ThreadPoolExecutor(max_workers=H.NCPU) as ex:
+        xres = list(ex.map(cross_cfg, [(c, o) for c in cross for o in ("-O0", "-O2", "-Os")]))
+    for tname, opt, und, err in xres:
+        if und is None:
+            rep.notes.append("cross target %s%s not available here: %s" % (tname, opt, (err or "").strip()[-160:]))
+            continue
+        rep.count("cross_target_objects_checked")
+        rep.nontrivial(("cross", tname, opt))
+        for sym in sorted(und):
+            if not (sym in allowed or sym in MEMFUNCS or COMPILER_RT.match(sym)):
+                rep.violation("C20:undefined-symbol-outside-port-api:%s" % sym,
+                              "core compiled freestanding for %s %s references `%s' - not a port function, a memory primitive or an "
+                              "integer helper of the compiler runtime" % (tname, opt, sym))
     # the repository's own lint rule (lexical clause; not runtime monitoring)
     r = sh(["bash", "scripts/lint_core_no_os_conditionals.sh"], cwd=H.REPO)
     rep.extra["lint_script"] = dict(exit=r.returncode, tail=r.stdout[-300:])
@@ -261,6 +301,7 @@ def run(ctx):
         rep.violation("C20:lint:os-specific-macro-or-header-in-core", "scripts/lint_core_no_os_conditionals.sh failed:\n" + r.stdout[-1500:])
     rep.need("corpus_runs", rep.counters.get("corpus_runs", 0), 12)
     rep.need("bracket_runs", rep.counters.get("bracket_runs", 0), 12)
+    rep.need("cross_target_objects_checked", rep.counters.get("cross_target_objects_checked", 0), 6)
     if os.uname().machine == "x86_64":
         rep.need("bare_runs", rep.counters.get("bare_runs", 0), 12)
     rep.sample(dict(configurations=["%s%s-%s" % c for c in cfgs], scenarios=len(scns), bracket_output=sent_ref))
